@@ -106,7 +106,7 @@ FOREIGN_ATTRS = [
 # foreign attributes with a multi-segment path whose LAST segment is spelled like a helper attribute (token-level
 # generators only: rustc could not resolve them).  derive_ex owns bare identifiers only.
 FOREIGN_PATH_ATTRS = [
-    'foo :: debug', ':: foo :: hash ( x )', 'foo :: eq', 'bar :: default ( 1 )', 'derive_ex :: derive_ex ( Clone )',
+    'foo :: debug', ':: foo :: hash ( x )', 'foo :: eq', 'bar :: default ( 1 )', 'foo :: derive_ex :: derive_ex ( Clone )',
     'serde :: partial_ord', 'a :: b :: ord ( key = 1 )', 'foo :: derive_ex', 'foo :: partial_eq ( ignore )', ':: debug',
 ]
 VIS = ['', 'pub', 'pub ( crate )']
